@@ -147,6 +147,19 @@ func (b *Builder) AddCapture(captureIndex uint32, isStart bool, next StateID) St
 // look is the assertion type (start/end of text/line).
 // next is the state to transition to if the assertion succeeds.
 func (b *Builder) AddLook(look Look, next StateID) StateID {
+	// Look-around assertions distinguish bytes that no transition distinguishes: a DFA that
+	// caches transitions per byte CLASS must not put a word byte and a non-word byte (or
+	// '\n' and another byte) into one class, or a transition cached for one is reused for
+	// the other with the wrong look-behind context.
+	switch look {
+	case LookStartLine, LookEndLine:
+		b.byteClassSet.SetRange('\n', '\n')
+	case LookWordBoundary, LookNoWordBoundary:
+		b.byteClassSet.SetRange('0', '9')
+		b.byteClassSet.SetRange('A', 'Z')
+		b.byteClassSet.SetRange('_', '_')
+		b.byteClassSet.SetRange('a', 'z')
+	}
 	id := StateID(conv.IntToUint32(len(b.states)))
 	b.states = append(b.states, State{
 		id:   id,
